@@ -20,4 +20,6 @@ JInv == /\ Chk("C01_Definite", C01_Definite(Recs[i]))
         /\ Chk("C16_SyncedAtEnd", C16_SyncedAtEnd(Recs[i]))
         /\ Chk("C16_InitialWhileAlive", C16_InitialWhileAlive(Recs[i]))
         /\ Chk("C16_SetterRejected", C16_SetterRejected(Recs[i]))
+        /\ Chk("C16_InitialWhileLingering", C16_InitialWhileLingering(Recs[i]))
+        /\ Chk("C16_RestartFrom", C16_RestartFrom(Recs[i]))
 ==============================================================================
